@@ -279,13 +279,19 @@ def run(ctx):
     ks = []
     ctx.guarded('C18/locate-kernels', lambda: ks.extend(kernels(ctx, widths)))
     ctx.guarded('C18/locate-factory-kernels', lambda: ks.extend(factory_kernels(ctx, [w for w in widths if w in (8, 64)])))
-    ctx.run_families([(K.name, (lambda K=K: run_kernel(ctx, K))) for K in ks])
+    from . import c18_verify
+    ctx.run_families([(K.name, (lambda K=K: run_kernel(ctx, K))) for K in ks] + c18_verify.families(ctx))
+    ctx.guarded('native literal-environment battery', lambda: c18_verify.literal_battery(ctx, 'native literal-environment battery', 'cedar-policy-symcc: verification conditions on a literal environment vs the concrete authorizer', 'native literal-environment battery'))
     for n in getattr(ctx, 'extra_natives', []):
         n.close()
-    ctx.bounds += [f'bit-vector widths {widths}; operands: every natural below 2^w (Int-mode, no bit-blasting); of_int / overflows arguments within 4 * 2^w',
+    ctx.bounds += [f'verification conditions: all 11 builders on every literal valuation of their arguments (3 per policy, 2 per policy set); native battery: {len(c18_verify.literal_cases())} (request, store, policy pair) cases x up to 11 conditions through the public API',
+                   f'bit-vector widths {widths}; operands: every natural below 2^w (Int-mode, no bit-blasting); of_int / overflows arguments within 4 * 2^w',
                    'shift amounts: exact below 130, abstract multiple of 2^130 above (stated model bound)']
     ctx.assumptions += ['num-bigint operations modelled as unbounded SMT integers (mir2smt/bigint.py): + - * / % pow(2, k) cmp to_bigint to_biguint to_u32, xor against an all-ones mask',
                         'oracle = the SMT-LIB definitions of the bit-vector operators over naturals / integers, written in the obligations',
-                        'compile(), SymEnv::from_concrete_env and the verify_* assert builders are NOT covered']
+                        'verification-condition builders (symccopt/verifier.rs + the factory functions not / eq / and / or / implies / is_some / some_of executed from the MIR): the policy term is none or some(b), the policy-set term a '
+                        'boolean literal, b symbolic; the well-formedness asserts (enforce_*) are a stub returning none; that compile() of a policy on a literal environment yields the literal its evaluation prescribes is NOT covered '
+                        '(native literal-environment battery only), nor is SymEnv::from_concrete_env']
     return ctx.finish('Solver-decided agreement of SymCC\'s constant-folding arithmetic (symcc::bitvec::BitVec, executed from the MIR of cedar-policy-symcc with num-bigint as SMT integers) with the SMT-LIB semantics of the '
-                      'bit-vector operators at the stated widths; natively replayed through cedar_policy_symcc::bitvec::BitVec.')
+                      'bit-vector operators at the stated widths; natively replayed through cedar_policy_symcc::bitvec::BitVec. And the verification-condition builders of symccopt/verifier.rs: on literal terms the asserts reduce to '
+                      'constants and are satisfiable exactly when the named condition is violated (never errors / always matches / never matches / matches-equivalent, -implies, -disjoint / always allows / always denies / implies / equivalent / disjoint).')
